@@ -224,9 +224,6 @@ Proof. vm_compute. repeat split; try lia; discriminate. Qed.
 Arguments key_eqb : simpl never.
 Arguments fkey : simpl never.
 Section Cache.
-Variable server : N -> str.
-Notation fetch := (fetch server).
-Notation fetch_all := (fetch_all server).
 
 Lemma key_eqb_eq a b : key_eqb a b = true <-> a = b.
 Proof.
@@ -264,8 +261,8 @@ Qed.
 
 (* what a request returns and stores *)
 Theorem fetch_request f c : fst (snd (fetch f c)) = true ->
-  snd (snd (fetch f c)) = server (f_id c) /\
-  forall p, f_path c = Some p -> fs_get (fkey c p) (fst (fetch f c)) = Some (server (f_id c)).
+  snd (snd (fetch f c)) = f_payload c /\
+  forall p, f_path c = Some p -> fs_get (fkey c p) (fst (fetch f c)) = Some (f_payload c).
 Proof.
   unfold C19_Model.fetch. destruct (f_path c) as [p|]; [|simpl; intros _; split; [reflexivity|discriminate]].
   destruct (fs_get (fkey c p) f) as [v|].
@@ -276,55 +273,59 @@ Qed.
 
 (* a non-empty cached file for a key whose server payload is non-empty stays non-empty under every call *)
 Definition good (k : key) (f : fs) : Prop := exists v, fs_get k f = Some v /\ v <> [].
-Definition key_id (k : key) : N := snd (fst k).
+(* the server does not answer this call with an empty payload, should the call be about file k *)
+Definition pay_ok (k : key) (c : fcall) : Prop := forall p, f_path c = Some p -> fkey c p = k -> f_payload c <> [].
 
-Lemma fetch_good k f c : server (key_id k) <> [] -> good k f -> good k (fst (fetch f c)).
+Lemma fetch_good k f c : pay_ok k c -> good k f -> good k (fst (fetch f c)).
 Proof.
-  intros Hs (v & Hg & Hv). unfold C19_Model.fetch.
-  destruct (f_path c) as [p|]; [|exists v; auto].
+  intros Hs0 (v & Hg & Hv). unfold C19_Model.fetch.
+  destruct (f_path c) as [p|] eqn:Hp; [|exists v; auto].
+  assert (Hs: fkey c p = k -> f_payload c <> []) by (intros E; exact (Hs0 p Hp E)). clear Hs0.
   destruct (fs_get (fkey c p) f) as [v'|].
   - destruct (Nat.eqb (length v') 0 || f_overwrite c); simpl; [|exists v; auto].
     destruct (key_eqb (fkey c p) k) eqn:E.
-    + apply key_eqb_eq in E. subst k. exists (server (f_id c)). split; [|exact Hs].
+    + apply key_eqb_eq in E. exists (f_payload c). split; [|exact (Hs E)]. rewrite <- E.
       unfold fs_set. cbn [fs_get]. rewrite key_eqb_refl. reflexivity.
     + exists v. split; [|exact Hv]. unfold fs_set. cbn [fs_get]. rewrite E. exact Hg.
   - simpl. destruct (key_eqb (fkey c p) k) eqn:E.
-    + apply key_eqb_eq in E. subst k. exists (server (f_id c)). split; [|exact Hs].
+    + apply key_eqb_eq in E. exists (f_payload c). split; [|exact (Hs E)]. rewrite <- E.
       unfold fs_set. cbn [fs_get]. rewrite key_eqb_refl. reflexivity.
     + exists v. split; [|exact Hv]. unfold fs_set. cbn [fs_get]. rewrite E. exact Hg.
 Qed.
 
-Lemma fetch_all_good k cs : server (key_id k) <> [] -> forall f, good k f -> good k (fst (fetch_all f cs)).
+Lemma fetch_all_good k cs : Forall (pay_ok k) cs -> forall f, good k f -> good k (fst (fetch_all f cs)).
 Proof.
-  intros Hs. induction cs as [|c cs IH]; intros f Hg; simpl; [exact Hg|].
+  induction cs as [|c cs IH]; intros Hs f Hg; simpl; [exact Hg|].
+  inversion Hs as [|c' cs' Hc Hcs]; subst.
   destruct (fetch f c) as [f1 o] eqn:E1. destruct (fetch_all f1 cs) as [f2 os] eqn:E2. simpl.
-  specialize (IH f1). rewrite E2 in IH. apply IH.
-  pose proof (fetch_good k f c Hs Hg) as G. rewrite E1 in G. exact G.
+  specialize (IH Hcs f1). rewrite E2 in IH. apply IH.
+  pose proof (fetch_good k f c Hc Hg) as G. rewrite E1 in G. exact G.
 Qed.
 
-Lemma fetch_makes_good f c p : f_path c = Some p -> server (f_id c) <> [] -> good (fkey c p) (fst (fetch f c)).
+Lemma fetch_makes_good f c p : f_path c = Some p -> f_payload c <> [] -> good (fkey c p) (fst (fetch f c)).
 Proof.
   intros Hp Hs. unfold C19_Model.fetch. rewrite Hp.
   destruct (fs_get (fkey c p) f) as [v|] eqn:G.
   - destruct (Nat.eqb (length v) 0) eqn:L; simpl.
-    + exists (server (f_id c)). unfold fs_set. cbn [fs_get]. rewrite key_eqb_refl. auto.
+    + exists (f_payload c). unfold fs_set. cbn [fs_get]. rewrite key_eqb_refl. auto.
     + destruct (f_overwrite c); simpl.
-      * exists (server (f_id c)). unfold fs_set. cbn [fs_get]. rewrite key_eqb_refl. auto.
+      * exists (f_payload c). unfold fs_set. cbn [fs_get]. rewrite key_eqb_refl. auto.
       * exists v. split; [exact G|]. intros ->. discriminate.
-  - simpl. exists (server (f_id c)). unfold fs_set. cbn [fs_get]. rewrite key_eqb_refl. auto.
+  - simpl. exists (f_payload c). unfold fs_set. cbn [fs_get]. rewrite key_eqb_refl. auto.
 Qed.
 
-(* in any history: once a call with a cache path has run for an id with a non-empty payload, no later call with the same
-   path, id and extension and overwrite = false issues a request, whatever happens in between *)
+(* in any history: once a call with a cache path has run and the server answered it with a non-empty payload, no later call with the
+   same path, id and extension and overwrite = false issues a request, whatever calls happen in between (on any files, with
+   or without overwrite), as long as the server never answers an in-between call about that very file with an empty payload *)
 Theorem cache_once f pre c p mid c2 p2 :
-  f_path c = Some p -> server (f_id c) <> [] ->
+  f_path c = Some p -> f_payload c <> [] -> Forall (pay_ok (fkey c p)) mid ->
   f_path c2 = Some p2 -> fkey c2 p2 = fkey c p -> f_overwrite c2 = false ->
   let f' := fst (fetch_all (fst (fetch (fst (fetch_all f pre)) c)) mid) in
   exists v, fetch f' c2 = (f', (false, v)) /\ v <> [].
 Proof.
-  intros Hp Hs Hp2 Hk Ho f'.
+  intros Hp Hs Hmid Hp2 Hk Ho f'.
   assert (G: good (fkey c p) f').
-  { apply fetch_all_good; [exact Hs|]. apply fetch_makes_good; assumption. }
+  { apply fetch_all_good; [exact Hmid|]. apply fetch_makes_good; assumption. }
   destruct G as (v & Hg & Hv). exists v. split; [|exact Hv].
   apply (cache_hit f' c2 p2 v); try assumption. rewrite Hk. exact Hg.
 Qed.
@@ -336,6 +337,21 @@ Proof.
   - destruct (fetch_all f b); reflexivity.
   - destruct (fetch f c) as [f1 o]. rewrite IH. destruct (fetch_all f1 a) as [f2 os]. simpl.
     destruct (fetch_all f2 b); reflexivity.
+Qed.
+
+(* special case: a server whose answer depends on the id only (the statement of the earlier rounds) *)
+Corollary cache_once_const (server : N -> str) f pre c p mid c2 p2 :
+  Forall (fun x => f_payload x = server (f_id x)) (c :: mid) ->
+  f_path c = Some p -> server (f_id c) <> [] ->
+  f_path c2 = Some p2 -> fkey c2 p2 = fkey c p -> f_overwrite c2 = false ->
+  let f' := fst (fetch_all (fst (fetch (fst (fetch_all f pre)) c)) mid) in
+  exists v, fetch f' c2 = (f', (false, v)) /\ v <> [].
+Proof.
+  intros Hall Hp Hs Hp2 Hk Ho. inversion Hall as [|x xs Hc Hmid]; subst.
+  apply (cache_once f pre c p mid c2 p2); try assumption.
+  - rewrite Hc. exact Hs.
+  - rewrite Forall_forall in *. intros m Hm pm Hpm Hkm. rewrite (Hmid m Hm).
+    unfold fkey in Hkm. inversion Hkm as [[E1 E2 E3]]. rewrite E2. exact Hs.
 Qed.
 End Cache.
 
